@@ -36,10 +36,12 @@ def c14(tier, seed):
     n = 3 if q else 5
     tok = 2 if q else 3
     jobs = [
-        J(MEM, "VerifK14aReadPageAnyToken", n=n, tok=tok),
-        J(MEM, "VerifK14aReadPageFollow", n=n + 1),
-        J(MEM, "VerifK14aListStoresAnyToken", n=n, tok=tok),
-        J(MEM, "VerifK14aReadModelsAnyToken", n=n, tok=tok),
+        J(MEM, "VerifK14aReadPageAnyToken", n=n, tok=tok, timeout_ms=180000),
+        J(MEM, "VerifK14aReadPageFollow", n=n + 1, timeout_ms=180000),
+        J(MEM, "VerifK14aListStoresAnyToken", n=n, tok=tok, timeout_ms=180000),
+        J(MEM, "VerifK14aListStoresAnyToken", n=n, tok=tok, ids=1, timeout_ms=180000),
+        J(MEM, "VerifK14aReadModelsAnyToken", n=n, tok=tok, timeout_ms=180000),
+        J("pkg/server/commands", "VerifK14bReadChangesTokenType", len=3 if q else 5, tok=5 if q else 8, timeout_ms=180000),
     ]
     return jobs
 
